@@ -27,7 +27,7 @@ metas = [json.load(open(m)) for m in sorted(glob.glob(V + '/seeded/*/meta.json')
 det = [m for m in metas if m.get('detected_by')]
 own = [m for m in det if m['property'] in m['detected_by']]
 missed = [m for m in metas if not m.get('detected_by')]
-lines = ['%d seeded changes are stored (%d properties × 3); %d are reported (%d by a rule of the property the change was written against, %d only by rules of another property); %d are missed:' % (
+lines = ['%d seeded changes are stored (%d properties, five rounds of independent sub-agents); %d are reported (%d by a rule of the property the change was written against, %d only by rules of another property); %d are missed:' % (
     len(metas), len({m['property'] for m in metas}), len(det), len(own), len(det) - len(own), len(missed)), '']
 for m in missed:
     lines.append('* %s — %s. *Why missed:* %s' % (m['id'], m.get('summary', ''), m.get('why_missed', '')))
